@@ -1,17 +1,18 @@
-"""Harness registry: which contract harness serves which property (DESIGN.md section 7)."""
-from runner import H
+"""Harness registry: the union of harness/reg_*.py (one file per code family).
+Each reg_*.py defines HARNESSES = [H(...), ...] and optionally PROP_TEXT = {pid: {...}} fragments."""
+import glob
+import importlib.util
+import os
 
-EC = ['erasure_code/ec_base.c']
-CBMC_TB = 'cbmc/goto-instrument 6.11.0 (dfcc) and its C bit-vector semantics'
-
-HARNESSES = [
-    # ---- C12 GF(2^8) scalar arithmetic and tables
-    H('gf_mul', ['C12'], 'ec/gf_scalar.c', EC, enforce='gf_mul', also=['C05', 'C15'], timeout=600,
-      expect=['postcondition', 'array_bounds'], replay=('gf.c', 'gf_mul')),
-    H('gf_inv', ['C12'], 'ec/gf_scalar.c', EC, enforce='gf_inv', also=['C05', 'C15'], timeout=300,
-      expect=['postcondition'], replay=('gf.c', 'gf_inv')),
-    H('gf_vect_mul_init', ['C12'], 'ec/gf_scalar.c', EC, enforce='gf_vect_mul_init', also=['C05', 'C15'],
-      timeout=300, expect=['postcondition'], replay=('gf.c', 'gf_vect_mul_init')),
-    H('gf_table_gfni', ['C12'], 'ec/gf_scalar.c', EC, timeout=600, expect=['assertion'], min_obligations=1),
-    H('spec_field_axioms', ['C12'], 'ec/gf_scalar.c', EC, timeout=600, expect=['assertion'], min_obligations=4),
-]
+HARNESSES = []
+PROP_TEXT = {}
+_here = os.path.dirname(os.path.abspath(__file__))
+for _p in sorted(glob.glob(os.path.join(_here, 'reg_*.py'))):
+    _spec = importlib.util.spec_from_file_location(os.path.basename(_p)[:-3], _p)
+    _m = importlib.util.module_from_spec(_spec)
+    _spec.loader.exec_module(_m)
+    HARNESSES.extend(_m.HARNESSES)
+    for _k, _v in getattr(_m, 'PROP_TEXT', {}).items():
+        PROP_TEXT.setdefault(_k, []).append(_v)
+_names = [h.name for h in HARNESSES]
+assert len(_names) == len(set(_names)), 'duplicate harness names: %s' % sorted(n for n in _names if _names.count(n) > 1)
